@@ -206,10 +206,93 @@ where
     | _ :: v :: _ => v.toNat?
     | _ => none
 
+/-! ### system-level trace monitor (`sys` cases: two real nodes over the adversarial network)
+Written from the property text; looks only at the logged send results, the receiving application's
+log and the wire. -/
+
+structure Wire where
+  t : Nat
+  src : Nat
+  /-- copies the network delivered: 0 (dropped), 1, 2 (duplicated) -/
+  copies : Nat
+  /-- the network held this datagram back -/
+  delayed : Bool
+  ctr : Nat
+  flags : Nat
+  ack : Option Nat
+  /-- message number, for datagrams that request an acknowledgement -/
+  num : Option Nat
+
+def parseWire (s : String) : Option Wire :=
+  match s.splitOn ":" with
+  | [t, f, v, c, xf, a, i] =>
+    some { t := t.toNat?.getD 0, src := f.toNat?.getD 0,
+           copies := if v = "x" then 0 else if v = "2" then 2 else 1, delayed := v.startsWith "l",
+           ctr := c.toNat?.getD 0, flags := xf.toNat?.getD 0, ack := a.toNat?, num := i.toNat? }
+  | _ => none
+
+def kv (ws : List String) (k : String) : String :=
+  match ws.find? (·.startsWith (k ++ "=")) with
+  | some w => (w.drop (k.length + 1)).toString
+  | none => ""
+
+def strictlyIncreasing : List Nat → Bool
+  | a :: b :: rest => a < b && strictlyIncreasing (b :: rest)
+  | _ => true
+
+def sysMonitor (res : String) : Option String :=
+  let ws := words res
+  let base := (kv ws "base").toNat?.getD 300
+  let results := (kv ws "res").splitOn "," |>.filter (· != "")
+  let app := ((kv ws "app").splitOn ",").filterMap (·.toNat?)
+  let wire := ((kv ws "wire").splitOn ",").filterMap parseWire
+  -- 1. at most once, in sending order
+  if !strictlyIncreasing app then some s!"application received {app}: not at most once / not in sending order" else
+  -- 2. success only if the peer received it; no other outcome than success or the transmit timeout
+  match (results.zipIdx).findSome? (fun (r, i) =>
+      if r = "ok" then (if app.contains i then none else some s!"send {i} succeeded but the peer's application never received it")
+      else if r = "TxTimeout" then none
+      else some s!"send {i} ended with '{r}' (neither success nor transmit timeout)") with
+  | some v => some v
+  | none =>
+  -- 3. per message: transmissions, budget, back-off
+  let perMsg (i : Nat) : Option String :=
+    let txs := wire.filter (fun w => w.src == 1 && w.num == some i)
+    let times := txs.map (·.t)
+    let r := results.getD i "-"
+    let gaps := (times.zip (times.drop 1)).zipIdx
+    let early := gaps.findSome? (fun ((a, b), k) =>
+      if aboveSpecLower base k (b - a) 100 then none
+      else some s!"message {i}: retransmission {k + 1} after {b - a} ms, earlier than the protocol's back-off for base {base}")
+    match early with
+    | some v => some v
+    | none =>
+      if txs.length > budget + 1 then some s!"message {i} transmitted {txs.length} times: budget exceeded"
+      else if r = "TxTimeout" && txs.length < budget then some s!"message {i}: gave up after {txs.length} transmissions"
+      else if r = "TxTimeout" && txs.any (fun w => w.copies > 0 &&
+          -- an acknowledgement of it that reached the sender (undelayed) while it was still retransmitting
+          wire.any (fun a => a.src == 0 && a.ack == some w.ctr && a.copies > 0 && !a.delayed &&
+            a.t ≤ (times.getLast?.getD 0))) then
+        some s!"message {i}: a transmission and an acknowledgement got through, yet the call failed"
+      else none
+  match (List.range results.length).findSome? perMsg with
+  | some v => some v
+  | none =>
+  -- 4. every delivered copy of a message that requested an acknowledgement is acknowledged
+  let ctrs := (wire.filter (fun w => w.src == 1 && w.flags % 8 ≥ 4)).map (·.ctr) |>.eraseDups
+  ctrs.findSome? (fun c =>
+    let delivered := (wire.filter (fun w => w.src == 1 && w.ctr == c)).foldl (fun n w => n + w.copies) 0
+    let acks := (wire.filter (fun w => w.src == 0 && w.ack == some c)).length
+    if acks < delivered then some s!"counter {c} was delivered {delivered} times but acknowledged only {acks} times" else none)
+
 def step (st : St) (line : String) : St × String :=
   let (op, out) := splitArrow line
   match words op with
   | "case" :: _ :: kind => ({ m := newCase kind }, "case")
+  | "flow" :: _ =>
+    match sysMonitor out with
+    | some why => (st, s!"ORA {why}")
+    | none => (st, "ok")
   | w =>
     let (res, stateS) := splitHash out
     let (m', dis) := modelStep st.m op out
